@@ -215,6 +215,20 @@ func ruleLockFileWriters(c *eng.Ctx) {
 				if k, isK := eng.ConstInt(ta); isK && k == lockK && !strings.HasSuffix(ta.Type().String(), "WriteableFileType") {
 					n++
 					why, okR := removers[root]
+					if !okR {
+						// an unexported helper that is called only by classified removers
+						if rf := eng.Root(fn); rf.Object() != nil && !rf.Object().Exported() {
+							sites := c.P.AllCallsTo(root)
+							okR = len(sites) > 0
+							for _, s := range sites {
+								w, isRem := removers[c.P.FnName(eng.Root(s.Fn))]
+								if !isRem {
+									okR = false
+								}
+								why = "helper of: " + w
+							}
+						}
+					}
 					c.Check(okR, rule, c.P.FnName(fn)+"→remove(LockFile)", call.Pos(), "lock files are removed only by the lock code: %s", why)
 				}
 			}
